@@ -241,7 +241,10 @@ func (t *Total) Clone() *Total {
 		nt.Categories[i].Retained = ct.Retained
 		nt.Categories[i].Amount = ct.Amount
 		nt.Categories[i].amount = ct.amount
-		nt.Categories[i].Surcharge = ct.Surcharge
+		if ct.Surcharge != nil {
+			cs := *ct.Surcharge
+			nt.Categories[i].Surcharge = &cs
+		}
 		nt.Categories[i].Rates = make([]*RateTotal, len(ct.Rates))
 		for j, rt := range ct.Rates {
 			nt.Categories[i].Rates[j] = new(RateTotal)
@@ -282,14 +285,9 @@ func (t *Total) Merge(t2 *Total) *Total {
 			}
 		}
 		if catTotal == nil {
-			catTotal = new(CategoryTotal)
-			catTotal.Code = ct.Code
-			catTotal.Retained = ct.Retained
-			catTotal.Amount = ct.Amount
-			catTotal.amount = ct.amount
-			catTotal.Surcharge = ct.Surcharge
-			catTotal.Rates = append(catTotal.Rates, ct.Rates...)
-			nt.Categories = append(nt.Categories, catTotal)
+			// independent copy, the rows must not be shared with t2
+			cc := (&Total{Categories: []*CategoryTotal{ct}}).Clone()
+			nt.Categories = append(nt.Categories, cc.Categories[0])
 		} else {
 			catTotal.Amount = catTotal.Amount.Add(ct.Amount)
 			if ct.Surcharge != nil {
